@@ -27,7 +27,7 @@ impl GraphIndex {
 
     pub fn as_u64(&self) -> u64 {
         if self.is_edge() {
-            (-self.0) as u64
+            self.0.unsigned_abs()
         } else {
             self.0 as u64
         }
